@@ -211,10 +211,11 @@ PROPS["C09"]["stages"].append(dict(_pc01.stage(_pc01.c11_groups, 120, 3000), nam
 # C09 / C02: the two views and the word count as a model (spec/TextView.tla): theorems for every document x every
 # assignment of tight edges, the three defect toggles must fail
 PROPS["C09"]["stages"].insert(0, dict(name="textview-design", gen=dict(runs=dict(
-    quick=[bfs("MC_TextView", "TextView_q"), bfs("MC_TextView", "TextView_asis"),
+    quick=[bfs("MC_TextView", "TextView_q"), bfs("MC_TextView", "TextView_asis"), bfs("MC_TextView", "TextView_flags"),
            bfs("MC_TextView", "TextView_defect29", expect_violation=True), bfs("MC_TextView", "TextView_defect31", expect_violation=True),
            bfs("MC_TextView", "TextView_finding", expect_violation=True)],
     thorough=[bfs("MC_TextView", "TextView_q"), bfs("MC_TextView", "TextView_t", timeout=3000, workers=8),
+              bfs("MC_TextView", "TextView_flags_t", timeout=3000, workers=8),
               bfs("MC_TextView", "TextView_defect29", expect_violation=True), bfs("MC_TextView", "TextView_defect31", expect_violation=True),
               bfs("MC_TextView", "TextView_finding", expect_violation=True)]))))
 # C08: the order of the document filters (relevant elements -> lead image -> nested elements) is part of every call's trace
